@@ -141,8 +141,17 @@ func GenTable(t *rapid.T, name string, o Opts) Table {
 			if tb.Strict {
 				typ = "any"
 			}
+			if !tb.Strict && rapid.IntRange(0, 2).Draw(t, "gentype") == 0 {
+				typ = "numeric(10,2)" // a type with a comma of its own
+			}
 			expr := rapid.SampledFrom([]string{"%s", "%s || 'x'", "coalesce(%s, 0) + 1", "lower(%s)"}).Draw(t, "genexpr")
 			tb.Cols = append(tb.Cols, Column{Name: cn, Type: typ, Gen: fmt.Sprintf(expr, qcol(src)), GenStored: rapid.Bool().Draw(t, "stored")})
+			// a second generated column whose name is a prefix of the first one's
+			if !used["g"] && rapid.IntRange(0, 2).Draw(t, "gen2") == 0 {
+				used["g"] = true
+				expr2 := rapid.SampledFrom([]string{"%s || 'y'", "coalesce(%s, 0) + 2"}).Draw(t, "genexpr2")
+				tb.Cols = append(tb.Cols, Column{Name: "g", Type: typ, Gen: fmt.Sprintf(expr2, qcol(src)), GenStored: rapid.Bool().Draw(t, "stored2")})
+			}
 		}
 	}
 	plain := plainCols(&tb)
